@@ -205,7 +205,9 @@ func checkGroup(c *c19Case, alone [][]string) string {
 	return ""
 }
 
-func writeCurrentCase(c *c19Case) {
+func writeCurrentCase(c *c19Case) { writeCurrentCaseAny(c) }
+
+func writeCurrentCaseAny(c any) {
 	// for the driver: if the process dies (runtime fatal error, race report), this is the case
 	if os.Getenv("VERIF_FAIL_OUT") == "" {
 		return
